@@ -23,7 +23,7 @@ class _Raw:
 
 class _SetOfSeqs(_Raw):
     def __init__(self, seqs):
-        self.s = "{" + ", ".join("<<" + ", ".join('"%s"' % m for m in q) + ">>" for q in seqs) + "}"
+        self.s = "{" + ", ".join('"%s"' % "+".join(q) for q in seqs) + "}"
 
 
 def write_cfg(name, c, invariants=(), properties=()):
@@ -310,7 +310,7 @@ def run_client(chk, exe, streams, rng, *, label, single="all", nrand=3, cfg=None
                     msg = "segmentation %s: observed %s; not allowed by the reference: %s" % (
                         segs[r["segs"][0]], json.dumps(r["o"]), "; ".join(why))
                     break
-            if msg is None and len({json.dumps([r["o"]["cb"], r["o"]["closed"]]) for r in o["runs"]}) > 1:
+            if msg is None and len({json.dumps(r["o"]["cb"]) for r in o["runs"]}) > 1:
                 msg = "completions depend on the segmentation: " + " | ".join(
                     "%s -> %s" % (segs[r["segs"][0]], json.dumps(r["o"]["cb"])) for r in o["runs"][:3])
         if msg:
